@@ -6,6 +6,7 @@ CONSTANTS
   AtomicFire = FALSE
   Go123 = TRUE
   Misuse = FALSE
+  PutOnlyStopped = FALSE
 SPECIFICATION Spec
 INVARIANTS TypeOK NoStaleTick PoolQuiescent NoTrap Exclusive
 
